@@ -11,6 +11,8 @@ class DataContainer(dict):
         self._allow_compute = dict({k: True for k in self.keys()})
 
     def add(self, data: DataArray, name: str, allow_compute: bool = True) -> None:
+        # Work on a shallow copy: the array may be held by another model's container
+        data = data.copy(deep=False)
         data.name = name
         super().__setitem__(name, data)
         self._allow_compute[name] = True if allow_compute else False
